@@ -38,6 +38,7 @@ static inline int h_mine_str(const char *in) {
 }
 
 extern int h_thorough;      /* tier */
+extern int h_exhaustive;    /* thorough tier proper: minute-long complete enumerations are on */
 extern uint64_t h_seed;
 
 /* output helpers */
